@@ -1,5 +1,6 @@
 mod accept;
 mod bits;
+mod configs;
 mod core;
 mod cprcheck;
 mod decoder;
@@ -8,8 +9,11 @@ mod framegen;
 mod readercheck;
 mod refcpr;
 mod refdec;
+mod render;
 mod total;
 mod tracker;
+#[path = "../../shared/transcript.rs"]
+mod transcript;
 
 #[global_allocator]
 static GLOBAL: total::CountingAlloc = total::CountingAlloc;
@@ -44,6 +48,8 @@ fn main() {
             "C03" => accept::replay_c03(&v),
             "C05" => cprcheck::replay_c05(&v),
             "C19" => readercheck::replay_c19(&v),
+            "C11" => render::replay_c11(&v),
+            "C20" => configs::replay_c20(&v),
             "C12" | "C13" | "C14" | "C15" => tracker::replay(pid, &v),
             "C04" | "C06" | "C07" | "C08" | "C09" | "C10" => decoder::replay(pid, &v),
             _ => usage(),
@@ -67,8 +73,10 @@ fn main() {
         "C08" => decoder::run_c08(&ctx),
         "C09" => decoder::run_c09(&ctx),
         "C10" => decoder::run_c10(&ctx),
+        "C11" => render::run_c11(&ctx),
         "C12" | "C13" | "C14" | "C15" => tracker::run(&ctx, pid),
         "C19" => readercheck::run_c19(&mut ctx),
+        "C20" => configs::run_c20(&ctx),
         _ => usage(),
     }
 }
